@@ -956,8 +956,8 @@ func Spec() *mon.Spec {
 			"the multi-error that peach reports for several failures is an unexported []error type; it is expanded by reflection",
 		},
 		Phases: []mon.Phase{
-			{Name: "peach", Quick: 240, Thorough: 20000, Run: runPeach, GoMaxProcs: 16, Timeout: 180 * time.Second},
-			{Name: "run-parallel", Quick: 80, Thorough: 6000, Run: runParallel, GoMaxProcs: 16, Timeout: 180 * time.Second},
+			{Name: "peach", Quick: 240, Thorough: 3000, Run: runPeach, GoMaxProcs: 16, Timeout: 180 * time.Second},
+			{Name: "run-parallel", Quick: 80, Thorough: 1000, Run: runParallel, GoMaxProcs: 16, Timeout: 180 * time.Second},
 		},
 		HangViolation: true,
 		Floors: map[string]int{"distinct_nontrivial": 70, "callbacks_started": 2000, "bound1_comparisons": 30,
